@@ -280,7 +280,8 @@ def ref_pca(W):
 def run_a3(case, acc, order):
     from phylib.io.model import load_model
     nsub, variant = case['n_sub'], case['variant']
-    spec = {'features': 'absent', 'tfeatures': 'absent', 'raw': False, 'fill': case['fill'],
+    # (odd variants: the raw recording is there too - the features are still those of the stored waveforms)
+    spec = {'features': 'absent', 'tfeatures': 'absent', 'raw': variant % 2 == 1, 'fill': case['fill'],
             'n_spikes': 7, 'whitening': 'identity'}
     with core.Scratch() as d:
         tr = dsgen.make_dataset(d / 'ds', spec)
